@@ -416,7 +416,7 @@ def closest_window(hay, needle):
     if not hay or not needle:
         return []
     best, best_r = hay[:n], -1.0
-    step = max(1, n // 8)
+    step = 1 if len(hay) * n < 40000 else max(1, n // 8)
     for i in range(0, max(1, len(hay) - n + 1), step):
         w = hay[i:i + n]
         r = difflib.SequenceMatcher(None, w, needle, autojunk=False).ratio()
@@ -479,9 +479,12 @@ def run(ctx, info, rng, fam, hs):
                 win = closest_window(t["sqlite_before_diffs"], fr.get("sqlite", []))
                 detail["listed_difference_%s" % did] = {
                     "why_listed": why.get(did, ""),
-                    "expected_sqlite_fragment_vs_what_is_there_now": readable_diff(
-                        fr.get("sqlite", []), win, "listed SQLite fragment of %s" % did, "closest part of sqlite.go:%s now" % t["sqlite_fn"],
-                        context=1, limit=40)}
+                    "expected_sqlite_fragment_vs_what_is_there_now": [
+                        "listed SQLite fragment: " + " ".join(fr.get("sqlite", [])),
+                        "closest in sqlite.go:%s now: " % t["sqlite_fn"] + " ".join(win)]}
+            if t["unused_diffs"]:
+                what = "listed-difference-gone"
+                msg += "; listed difference(s) %s no longer occur in sqlite.go" % ", ".join(t["unused_diffs"])
         detail["token_diff"] = diff
         C.report(ctx, "pgtie:%s:%s" % (t["name"], what), "Postgres store tie: " + msg,
                  {"kind": "obligation", "no_failing_input_found": True, "names": theorem_of(t["name"]), "detail": detail})
@@ -570,5 +573,42 @@ def main_view(argv):
         print(k, "not covered:", [x for x in inv[k] if x not in covered])
 
 
+def main_check():
+    """python3 lib/pgtie.py check   (VERIF_REPO=<tree>): regenerate Gen/PgTie.v from the tree and run only the tie (no queue histories)"""
+    import json
+    ctx = C.Ctx("C13", "quick", 1)
+    try:
+        tr, log = C.go_build_translators(ctx)
+        if tr is None:
+            raise RuntimeError(log)
+        rc, out = C.run([tr, C.REPO, os.path.join(C.COQ, "Gen")])
+        print("translator rc=%d %s" % (rc, out.strip()[:300]))
+        cov = run(ctx, {}, None, None, None)
+        for v in ctx.violations:
+            ro = json.load(open(v["replay"]))
+            print("VIOLATION key=%s theorem=%s" % (v["key"], ro.get("names")))
+            print("   " + v["what"][:300])
+            det = ro.get("detail")
+            if isinstance(det, dict):
+                for l in (det.get("token_diff") or [])[:24]:
+                    print("      " + l)
+                for k, x in det.items():
+                    if k.startswith("listed_difference_"):
+                        print("      %s no longer occurs:" % k)
+                        for l in x["expected_sqlite_fragment_vs_what_is_there_now"][:12]:
+                            print("         " + l)
+                    elif k not in ("token_diff", "sqlite_function", "postgres_function") and x:
+                        print("      %s: %s" % (k, json.dumps(x)[:300]))
+            elif det:
+                print("      " + json.dumps(det)[:600])
+        print("RESULT violations=%d keys=%s ties=%s broken=%s" % (len(ctx.violations), sorted(v["key"] for v in ctx.violations),
+                                                              cov.get("pgtie_ties"), cov.get("pgtie_ties_broken")))
+    finally:
+        ctx.cleanup()
+
+
 if __name__ == "__main__":
-    main_view(sys.argv[1:])
+    if sys.argv[1:2] == ["check"]:
+        main_check()
+    else:
+        main_view(sys.argv[1:])
